@@ -805,6 +805,10 @@ mut("c15-backfront-helper-ascending", "C15", "cmd/gts/insert.go", "\t\trr := loc
     old2="func insertFunc(", new2="func sortedHeads(rr gts.Regions) []int {\n\tindices := make([]int, len(rr))\n\tfor i, r := range rr {\n\t\tindices[i] = r.Head()\n\t}\n\tsort.Ints(indices)\n\treturn indices\n}\n\nfunc insertFunc(", note="the rule sees through the helper: the list comes back ascending")
 mut("c01-prefixall-silent-itoa", "C01", "seqio/genbank.go", "b.WriteString(fmt.Sprintf(\"REFERENCE   %d\", ref.Number))", "b.WriteString(\"REFERENCE   \" + strconv.Itoa(ref.Number))", silent=True)
 
+mut("c15-uniquecuts-wrap-guard-reverted", "C15", "cmd/gts/split.go", "\t\t\t\tif len(heads) < 2 {", "\t\t\t\tif len(heads) < 1 {", ["UNIQUE-CUTS|main.split|wrap"], note="the repaired defect, reintroduced: one distinct cut reaches the wrap-around piece")
+mut("c12-uniquecuts-wrap-guard-reverted", "C12", "cmd/gts/split.go", "\t\t\t\tif len(heads) < 2 {", "\t\t\t\tif len(heads) < 1 {", ["UNIQUE-CUTS|main.split|wrap"])
+mut("c15-uniquecuts-wrap-silent-le", "C15", "cmd/gts/split.go", "\t\t\t\tif len(heads) < 2 {", "\t\t\t\tif len(heads) <= 1 {", silent=True)
+
 if __name__ == "__main__":
     here = os.path.dirname(os.path.abspath(__file__))
     ids = [m["id"] for m in M]
